@@ -37,6 +37,7 @@ class Ctx:
         self.rng = random.Random(0)
         self.varsh = {}
         self.timeout = P_TIMEOUT_MS
+        self.feas_timeout = 10000
         self.reset_path()
         self.prefix = []
         self.cprefix = []
@@ -52,6 +53,8 @@ class Ctx:
         self.choices = []     # [(value, n)]
         self.n = 0
         self.axioms = []      # lazily instantiated axioms about UF atoms (z3 bools)
+        self.sqrt_args = {}       # z3 id of a sqrt atom -> its argument R
+        self.on_shadow = True     # every decision so far agreed with the float shadow point
         self.closed_ids = set()   # atoms of constant arguments (sqrt(2), ...)
         self.decided = {}     # z3 ast id of a branch condition -> decision on this path
         self.implied = []     # conditions found implied by the path condition (not part of it)
@@ -216,13 +219,32 @@ def decide(t, sh=None):
         v = C.prefix[k]
         C.path.append((v, t))
         C.decided[tid] = v
+        if sh is not None and bool(sh) != v:
+            C.on_shadow = False
         return v
     pc = C.pc()
     rel = relevant(pc + [t])
-    rT = check(pc + rel + [t])
-    rF = check(pc + rel + [z3.Not(t)])
+    ft = min(C.timeout, C.feas_timeout)
+    if C.on_shadow and sh is not None:
+        # concolic shortcut: the shadow point is a concrete witness of the path so far, so the side it
+        # takes is feasible; only the other side needs the solver.  (Exploring an infeasible path would
+        # be harmless anyway: its obligations hold vacuously and `sat` answers are always real witnesses.)
+        first = bool(sh)
+        other = check(pc + rel + [z3.Not(t) if first else t], timeout=ft)
+        C.path.append((first, t))
+        C.decided[tid] = first
+        if other != 'unsat':
+            if other == 'unknown':
+                C.stats['feas_unknown'] = C.stats.get('feas_unknown', 0) + 1
+            C.pending.append([d for d, _ in C.path[:-1]] + [not first])
+        return first
+    rT = check(pc + rel + [t], timeout=ft)
+    rF = check(pc + rel + [z3.Not(t)], timeout=ft)
     if rT == 'unknown' or rF == 'unknown':
-        raise Unsupported(f'branch feasibility unknown ({rT}/{rF}) for {str(t)[:200]}')
+        # undecided feasibility: explore the side anyway (sound, see above); counted in the evidence
+        C.stats['feas_unknown'] = C.stats.get('feas_unknown', 0) + 1
+        rT = 'sat' if rT == 'unknown' else rT
+        rF = 'sat' if rF == 'unknown' else rF
     if rT == 'sat' and rF == 'sat':
         first = True if sh is None else bool(sh)
         C.path.append((first, t))
@@ -452,7 +474,10 @@ class R:
                 return R(n=-self.n, d=self.d, sh=sh)
             return R(n=self.n * o.n, d=self.d, sh=sh)
         sh = None if self.sh is None or o.sh is None else self.sh * o.sh
-        return R(n=self.n * o.n, d=_den_mul(self.d, o.d), sh=sh)
+        if not self.d and not o.d and self._n is not None and o._n is not None and \
+                self._n.get_id() == o._n.get_id() and self._n.get_id() in C.sqrt_args:
+            return C.sqrt_args[self._n.get_id()]          # sqrt(t)*sqrt(t) = t
+        return _sqrt_reduce(self.n * o.n, _den_mul(self.d, o.d), sh)
 
     __rmul__ = __mul__
 
@@ -483,8 +508,8 @@ class R:
         # (a.n/a.d) / (o.n/o.d) = a.n*o.d / (a.d*o.n); cancel o.n against numerator-side denominators is not attempted
         if o.d:
             odt = _den_term(o.d)
-            return R(n=self.n * odt, d=_den_mul(self.d, {on.get_id(): (on, 1)}), sh=sh)
-        return R(n=self.n, d=_den_mul(self.d, {on.get_id(): (on, 1)}), sh=sh)
+            return _sqrt_reduce(self.n * odt, _den_mul(self.d, {on.get_id(): (on, 1)}), sh)
+        return _sqrt_reduce(self.n, _den_mul(self.d, {on.get_id(): (on, 1)}), sh)
 
     def __rtruediv__(self, o):
         try:
@@ -659,6 +684,34 @@ def _den_mul(d1, d2):
     return out
 
 
+def _sqrt_reduce(n, d, sh):
+    """even powers of a sqrt atom in the denominator are replaced by its argument:
+    1/s^2 = 1/t  (keeps code-side and oracle-side forms free of needless algebraic atoms)"""
+    if not d or not C.sqrt_args:
+        return R(n=n, d=d, sh=sh)
+    hit = [k for k, (t, p) in d.items() if p >= 2 and k in C.sqrt_args]
+    if not hit:
+        return R(n=n, d=d, sh=sh)
+    d = dict(d)
+    for k in hit:
+        t, p = d.pop(k)
+        q, r = divmod(p, 2)
+        if r:
+            d[k] = (t, r)
+        arg = C.sqrt_args[k]
+        for _ in range(q):
+            # 1/arg = den(arg)/arg.n
+            if arg.c is not None:
+                n = n * _rv(1 / arg.c)
+                continue
+            if arg.d:
+                n = n * _den_term(arg.d)
+            an = arg.n
+            C.nonzero.setdefault(an.get_id(), an)
+            d = _den_mul(d, {an.get_id(): (an, 1)})
+    return R(n=n, d=d, sh=sh)
+
+
 def _den_lcm(d1, d2):
     out = dict(d1)
     for k, (t, p) in d2.items():
@@ -764,6 +817,8 @@ def make_atom(kind, arg):
     atom.closed = arg.c is not None
     if atom.closed:
         C.closed_ids.add(a.get_id())
+    if kind == 'sqrt':
+        C.sqrt_args[a.get_id()] = arg
     C.atoms.append((kind, arg, atom))
     C.stats['atoms'] += 1
     d = ATOM_DEFS[kind](a, arg)
@@ -814,6 +869,8 @@ def prove_eq(a, b, extra=(), approx=False):
         goal0 = z3.Or(a.t - b.t > tol, b.t - a.t > tol)
         return check(pc0 + relevant(pc0 + [goal0]) + [goal0], want_model=True)
     lhs, rhs = _cross(a, b)
+    if lhs.get_id() == rhs.get_id():
+        return 'unsat', None        # syntactically identical terms (z3 hash-consing)
     pc = C.pc() + list(extra)
     goal = lhs != rhs
     # 1. atoms free (strongest statement, cheapest query)
